@@ -11,7 +11,7 @@ RULE = ("bin: 7 operators x 5 operand forms (vector, list, scalar, reflected sca
         "sampled patterns, v op v, and every combination of unequal lengths from {0,1,2,5}; unary -,+,abs likewise; "
         "bcast: every public method/property of str,int,float,date,bool,complex found by dir() that is not an attribute of "
         "Vector itself, with small argument pools (positional and keyword), on vectors of length 0,1,3 (all None patterns) and "
-        "1200; table: table op scalar / table op table over 7 operators with 0-3 columns, 0-3 rows, width and row mismatches. "
+        "1200; table: table op scalar, scalar op table (reflected), -t/+t/abs(t), table op table over 7 operators with 0-3 columns, 0-3 rows, width and row mismatches. "
         "Oracle per element = Python's own scalar result on the operands in the written order, compared by (type, repr), NaN-safe. "
         "non-trivial = at least one pair of non-None operands is evaluated (or the lengths differ) and the case is not skipped")
 ASSUMPTIONS = [
